@@ -304,6 +304,10 @@ func main() {
 	case "build":
 		build(false)
 		fmt.Println("built", filepath.Join(root, ".build/sim.test"))
+		if len(os.Args) > 2 && os.Args[2] == "--race" {
+			build(true)
+			fmt.Println("built", filepath.Join(root, ".build/sim.race.test"))
+		}
 	case "replay":
 		if len(os.Args) < 3 {
 			die(2, "usage: verif replay <program.json>")
